@@ -313,11 +313,7 @@ pub fn run(ctx: &mut Ctx) {
     let max_n = 4;
     for n in 0..=max_n {
         let bits = n * n;
-        let orders: &[&'static str] = if n <= 3 || ctx.tier.thorough() {
-            &["asc", "desc"]
-        } else {
-            &["asc"]
-        };
+        let orders: &[&'static str] = &["asc", "desc"];
         for mask in 0u64..(1u64 << bits) {
             let g = Graph::from_mask(n, mask);
             for real in reals {
@@ -350,9 +346,9 @@ pub fn run(ctx: &mut Ctx) {
     ctx.bounds.insert("exhaustive_nodes_max".into(), json!(max_n));
     ctx.bounds.insert("family_nodes_max".into(), json!(12));
     let mut n5_edges = 0;
-    if ctx.tier.thorough() {
-        // n = 5 with at most 7 edges: enumerate masks by popcount
-        n5_edges = 7;
+    {
+        // n = 5 with at most 7 edges (thorough: 9): enumerate masks by popcount
+        n5_edges = if ctx.tier.thorough() { 9 } else { 7 };
         let n = 5usize;
         let bits = 25u32;
         fn rec(start: u32, bits: u32, left: u32, cur: u64, out: &mut Vec<u64>) {
@@ -373,7 +369,7 @@ pub fn run(ctx: &mut Ctx) {
                     g: g.clone(),
                     real,
                     order_name: "asc",
-                    family: "all-n5-le7".into(),
+                    family: format!("all-n5-le{}", n5_edges),
                 });
             }
         }
